@@ -321,6 +321,8 @@ ORIGIN_UNITS = {
 }
 ORIGIN_INT_UNITS = {"tof": ["us", "ns"], "wavelength": ["angstrom"], "energy": ["meV", "ueV"],
                     "Q": ["1/angstrom", "1/nm"]}
+EVENT_DTYPES = ["float64", "float64", "float32", "int64", "int32"]
+INT_DTYPES = ("int64", "int32")
 ORIGIN_LOG_RANGE = {"tof": (1.0, 5.0), "wavelength": (-1.3, 1.7), "energy": (-2.0, 4.0), "Q": (-2.0, 1.7)}
 
 
@@ -332,6 +334,8 @@ def origin_values(origin, unit, dtype, n):
     elem = st.one_of(generic, generic, generic, generic, round_, st.just(0.0))
     if dtype == "int64":
         elem = elem.map(lambda v: int(min(round(v), 2**40)))
+    elif dtype == "int32":
+        elem = elem.map(lambda v: int(min(round(v), 2**31 - 1)))
     elif dtype == "float32":
         elem = elem.map(lambda v: float(np.float32(v)))
     return st.lists(elem, min_size=n, max_size=n)
@@ -447,9 +451,12 @@ def convert_cases(draw, inelastic=False, transposed=False):
     npix = int(np.prod(pix_shape)) if pix_shape else 1
     lay = draw(layouts(nbins))
     _, _, n = layout_indices(lay["sizes"], lay["gaps"], lay["order"])
-    evdtype = draw(st.sampled_from(["float64", "float64", "float32", "int64"]))
+    evdtype = draw(st.sampled_from(EVENT_DTYPES))
+    if evdtype == "int32" and target == "energy" and draw(st.sampled_from([True, True, False])):
+        # int32 -> energy is refused by scipp's pow (dense and event mode alike); keep a few of those
+        evdtype = "int64"
     unit = draw(st.sampled_from(
-        ORIGIN_INT_UNITS[origin] if evdtype == "int64" else sorted(ORIGIN_UNITS[origin])))
+        ORIGIN_INT_UNITS[origin] if evdtype in INT_DTYPES else sorted(ORIGIN_UNITS[origin])))
     wdtype = draw(st.sampled_from(["float64", "float64", "float32"]))
     case = {
         "origin": origin, "target": target, "scatter": scatter,
@@ -476,7 +483,7 @@ def convert_cases(draw, inelastic=False, transposed=False):
         if ekind is not None:
             m = nx + 1 if ekind == "edges" else nx
             edt = draw(st.sampled_from(["float64", evdtype]))
-            xunits = ORIGIN_INT_UNITS[origin] if edt == "int64" else sorted(ORIGIN_UNITS[origin])
+            xunits = ORIGIN_INT_UNITS[origin] if edt in INT_DTYPES else sorted(ORIGIN_UNITS[origin])
             xunit = draw(st.sampled_from([unit, unit, unit] + xunits)) if unit in xunits else draw(
                 st.sampled_from(xunits))
             vals = sorted(draw(origin_values(origin, xunit, edt, m)))
@@ -731,7 +738,12 @@ def compare_events(case_name, origin, target, scatter, snap, out_binned, rename,
         pix = {d: idx[d] for d in pix_dims if d in idx}
         g = geometry_of({k: at(v, pix).copy() for k, v in in_coords.items()}, scatter)
         x = sc.array(dims=[EVDIM], values=x_in["values"][bi:ei].copy(), unit=x_in["unit"], dtype=x_in["dtype"])
-        ref = dense_chain(origin, target, x, g)
+        try:
+            ref = dense_chain(origin, target, x, g)
+        except sc.DTypeError:
+            if x_in["dtype"] != "int32":
+                raise
+            raise _DenseRefused from None
         if tuple(ref.dims) != (EVDIM,):
             raise HarnessError(f"reference for bin {key} has dims {ref.dims}")
         ref_meta = (ref.unit, str(ref.dtype))
@@ -749,13 +761,38 @@ def compare_events(case_name, origin, target, scatter, snap, out_binned, rename,
     return ncompared, raw_same, size_in
 
 
+class _DenseRefused(Exception):
+    """The dense kernels refuse the dtype (int32 in scipp's pow): nothing to compare with."""
+
+
+def dense_refuses_int32(origin, target, scatter, unit, in_coords, pix_dims, sizes):
+    """True when the dense kernel chain raises scipp's DTypeError for an int32 coordinate (pixel 0)."""
+    import scipp as sc
+
+    pix = {d: 0 for d in pix_dims}
+    if any(sizes[d] == 0 for d in pix_dims):
+        return target == "energy"
+    g = geometry_of({k: at(v, pix).copy() for k, v in in_coords.items()}, scatter)
+    x = sc.array(dims=[EVDIM], values=np.asarray([1], dtype=np.int32), unit=unit, dtype="int32")
+    try:
+        dense_chain(origin, target, x, g)
+    except sc.DTypeError:
+        return True
+    return False
+
+
 def check_convert(case):
+    da, parent, pix_dims = build_input(case)
+    return verify_convert(case, da, parent, pix_dims)
+
+
+def verify_convert(case, da, parent, pix_dims, tag=""):
+    """One conversion of ``da`` as it is now, compared with the dense kernels for its current coordinates."""
     import scipp as sc
     import scippneutron as scn
 
     origin, target, scatter = case["origin"], case["target"], case["scatter"]
-    da, parent, pix_dims = build_input(case)
-    name = f"{origin}->{target}"
+    name = f"{tag}{origin}->{target}"
     snap = snap_dataarray(da)
     parent_snap = snap_dataarray(parent) if parent is not da else None
     in_coords = {k: da.coords[k].copy() for k in da.coords if k != origin}
@@ -772,7 +809,15 @@ def check_convert(case):
         arg = sc.Dataset({"events": da})
     else:
         arg = da
-    out = scn.convert(arg, origin=origin, target=target, scatter=scatter)
+    try:
+        out = scn.convert(arg, origin=origin, target=target, scatter=scatter)
+    except sc.DTypeError:
+        # allowed only where the dense kernels refuse the same dtype: int32 operands of scipp's pow
+        if case["evdtype"] != "int32" or not dense_refuses_int32(
+                origin, target, scatter, case["unit"], in_coords, pix_dims, dict(da.sizes)):
+            raise
+        input_unchanged(snap, da, name)
+        return [f"target:{origin}->{target}", "ev:int32", "int32:refused-like-dense(DTypeError)"], False
     if case["dataset"]:
         if sorted(out.keys()) != (["events", "monitor"] if with_dense_item else ["events"]):
             raise Violation("dataset", f"{name}: items of the dataset are {list(out.keys())}")
@@ -802,8 +847,11 @@ def check_convert(case):
         raise Violation("dataset", f"{name}: dense item of the dataset changed: {out_dense.dims} "
                                    f"{np.asarray(out_dense.values).tolist()}")
 
-    n, raw_same, sizes = compare_events(name, origin, target, scatter, snap, out.data, rename, in_coords,
-                                        pix_dims)
+    try:
+        n, raw_same, sizes = compare_events(name, origin, target, scatter, snap, out.data, rename, in_coords,
+                                            pix_dims)
+    except _DenseRefused:
+        return [f"target:{origin}->{target}", "ev:int32", "int32:only-dense-refuses"], False
 
     # masks and unrelated coordinates
     if list(out.masks) != list(snap["masks"]):
@@ -917,7 +965,7 @@ def enumerate_grid(tier, seed):
     pairs += [("tof", t, False, None) for t in NOSCATTER_TARGETS]
     pairs += [("tof", "energy_transfer", True, "incident_energy"), ("tof", "energy_transfer", True, "final_energy")]
     for (origin, target, scatter, energy), grid, evdtype, lname in itertools.product(
-            pairs, ["pix", "pix_x", "x_pix", "pix2d"], ["float64", "float32", "int64"], sorted(FIXED_LAYOUTS)):
+            pairs, ["pix", "pix_x", "x_pix", "pix2d"], ["float64", "float32", "int64", "int32"], sorted(FIXED_LAYOUTS)):
         pix_shape = [2, 3] if grid == "pix2d" else [3]
         nx = 2 if grid in ("pix_x", "x_pix") else 0
         dims, shape, _ = grid_dims(grid, origin, pix_shape, nx)
@@ -926,7 +974,7 @@ def enumerate_grid(tier, seed):
         sizes, gaps, order = FIXED_LAYOUTS[lname](nb)
         _, _, n = layout_indices(sizes, gaps, order)
         ev = [FIXED_EVENTS[origin][i % 10] * (1 + i // 10) for i in range(n)]
-        if evdtype == "int64":
+        if evdtype in INT_DTYPES:
             ev = [int(math.ceil(v)) for v in ev]
         geo = {"mode": "positions" if scatter else "noscatter", "unit": "m",
                "sample_position": [0.0, 0.0, 0.0], "source_position": [0.0, 0.0, -10.0],
@@ -985,13 +1033,13 @@ def kernel_cases(draw):
     npix = int(np.prod(pix_shape)) if pix_shape else 1
     lay = draw(layouts(npix))
     _, _, n = layout_indices(lay["sizes"], lay["gaps"], lay["order"])
-    dtype = draw(st.sampled_from(["float64", "float64", "float32", "int64"]))
+    dtype = draw(st.sampled_from(EVENT_DTYPES))
     ops = {}
     for name in binned_names:
         if name == "pulse_time":
             # tested usage: a float offset in the unit of tof
             continue
-        unit = draw(st.sampled_from(ORIGIN_INT_UNITS[name] if dtype == "int64" else sorted(ORIGIN_UNITS[name])))
+        unit = draw(st.sampled_from(ORIGIN_INT_UNITS[name] if dtype in INT_DTYPES else sorted(ORIGIN_UNITS[name])))
         ops[name] = {"unit": unit, "dtype": dtype, "values": draw(origin_values(name, unit, dtype, n))}
     if "pulse_time" in binned_names:
         ops["pulse_time"] = {"unit": ops["tof"]["unit"], "dtype": ops["tof"]["dtype"],
@@ -1030,7 +1078,35 @@ def kernel_cases(draw):
         elif ddt == "float64":
             vals = [float(v) for v in vals]
         dense[name] = {"unit": unit, "dtype": ddt, "values": vals, "per_pixel": per_pixel}
-    return {"kernel": kname, "grid": grid, "pix_shape": pix_shape, "layout": lay, "binned": ops, "dense": dense}
+    mutate = None
+    if dense and draw(st.sampled_from([True, False, False])):
+        mutate = draw(mutation_step(sorted(dense), {k: v["dtype"] for k, v in dense.items()}))
+    return {"kernel": kname, "grid": grid, "pix_shape": pix_shape, "layout": lay, "binned": ops, "dense": dense,
+            "mutate": mutate}
+
+
+@st.composite
+def mutation_step(draw, names, dtypes):
+    """An in-place change of one coordinate/operand: scale floats and vectors, shift integers."""
+    name = draw(st.sampled_from(names))
+    if dtypes[name] in INT_DTYPES:
+        return {"name": name, "add": draw(st.integers(1, 7))}
+    if name == "two_theta":
+        return {"name": name, "factor": draw(st.floats(0.5, 0.98, allow_nan=False))}
+    return {"name": name, "factor": draw(st.one_of(st.floats(0.8, 0.99, allow_nan=False),
+                                                   st.floats(1.01, 1.25, allow_nan=False)))}
+
+
+def mutate_in_place(var, step):
+    """Modify the values of ``var`` in its own buffer (same object, same unit and dtype)."""
+    import scipp as sc
+
+    if "add" in step:
+        var += sc.scalar(step["add"], unit=var.unit, dtype=var.dtype)
+    elif var.dtype == sc.DType.float32:
+        var *= sc.scalar(np.float32(step["factor"]), dtype="float32")
+    else:
+        var *= sc.scalar(float(step["factor"]))
 
 
 def _build_dense_operand(op, pix_dims, pix_shape):
@@ -1070,10 +1146,46 @@ def check_kernel(case):
         args[name] = sc.bins(begin=b.copy(), end=e.copy(), dim=EVDIM, data=buffers[name])
     for name, op in case["dense"].items():
         args[name] = _build_dense_operand(op, pix_dims, pix_shape)
+    labs, nontrivial = _verify_kernel(case, fn, args, buffers, pix_dims, pix_shape)
+    step = case.get("mutate")
+    if step is not None:
+        # same argument objects, one of them changed in place, called again
+        mutate_in_place(args[step["name"]], step)
+        labs, nontrivial = _verify_kernel(case, fn, args, buffers, pix_dims, pix_shape,
+                                          tag=f"second call after in-place change of {step['name']}: ")
+        labs.append("history:in-place:" + step["name"])
+    return labs, nontrivial
+
+
+def _verify_kernel(case, fn, args, buffers, pix_dims, pix_shape, tag=""):
+    import scipp as sc
+
+    kname = tag + case["kernel"]
+    lay = case["layout"]
+    dtype = next(iter(case["binned"].values()))["dtype"]
     before_b = {name: snap_binned(args[name]) for name in case["binned"]}
     before_d = {name: snap_var(args[name]) for name in case["dense"]}
 
-    out = fn(**args)
+    def dense_call(idx, bi, ei):
+        dargs = {}
+        for name, op in case["binned"].items():
+            dargs[name] = sc.array(dims=[EVDIM], values=np.asarray(op["values"][bi:ei], dtype=op["dtype"]),
+                                   unit=op["unit"], dtype=op["dtype"])
+        for name in case["dense"]:
+            dargs[name] = at(args[name], idx).copy()
+        return fn(**dargs)
+
+    try:
+        out = fn(**args)
+    except sc.DTypeError:
+        # allowed only where the dense call refuses the same dtype: int32 operands of scipp's pow
+        if dtype != "int32":
+            raise
+        try:
+            dense_call({d: 0 for d in pix_dims}, 0, 0)
+        except sc.DTypeError:
+            return ["kernel:" + case["kernel"], "ev:int32", "int32:refused-like-dense(DTypeError)"], False
+        raise
 
     for name in case["binned"]:
         after = snap_binned(args[name])
@@ -1107,13 +1219,12 @@ def check_kernel(case):
             key = tuple(idx[d] for d in pix_dims)
             bi, ei = int(first["begin"][key]), int(first["end"][key])
             bo, eo = int(ob["begin"][key]), int(ob["end"][key])
-            dargs = {}
-            for name, op in case["binned"].items():
-                dargs[name] = sc.array(dims=[EVDIM], values=np.asarray(op["values"][bi:ei], dtype=op["dtype"]),
-                                       unit=op["unit"], dtype=op["dtype"])
-            for name in case["dense"]:
-                dargs[name] = at(args[name], idx).copy()
-            ref = fn(**dargs)
+            try:
+                ref = dense_call(idx, bi, ei)
+            except sc.DTypeError:
+                if dtype != "int32":
+                    raise
+                return ["kernel:" + case["kernel"], "ev:int32", "int32:only-dense-refuses"], False
             ref = ref[oname] if isinstance(ref, dict) else ref
             if (got["unit"], got["dtype"]) != (ref.unit, str(ref.dtype)):
                 raise Violation("event-unit-dtype", f"{what}: events are {got['dtype']} [{got['unit']}], the dense "
@@ -1123,8 +1234,7 @@ def check_kernel(case):
                 raise Violation("event-value", f"{what}: bin {key}: differs from the dense call: "
                                 + first_diff(gv, rv), {"got": np.asarray(gv).tolist(), "dense": rv.tolist()})
             ncompared += ei - bi
-    dtype = next(iter(case["binned"].values()))["dtype"]
-    labs = ["kernel:" + kname, "grid:" + case["grid"], "ev:" + dtype, *layout_labels(sizes)]
+    labs = ["kernel:" + case["kernel"], "grid:" + case["grid"], "ev:" + dtype, *layout_labels(sizes)]
     labs += [f"{k}:{v['unit']}:{v['dtype']}" + (":per-pixel" if v["per_pixel"] else "") for k, v in
              case["dense"].items()]
     if any(lay["gaps"]):
@@ -1149,8 +1259,8 @@ def gravity_cases(draw):
     npix = int(np.prod(pix_shape)) if pix_shape else 1
     lay = draw(layouts(npix))
     _, _, n = layout_indices(lay["sizes"], lay["gaps"], lay["order"])
-    dtype = draw(st.sampled_from(["float64", "float64", "float32", "int64"]))
-    unit = draw(st.sampled_from(ORIGIN_INT_UNITS["wavelength"] if dtype == "int64" else ["angstrom", "nm", "m", "mm"]))
+    dtype = draw(st.sampled_from(EVENT_DTYPES))
+    unit = draw(st.sampled_from(ORIGIN_INT_UNITS["wavelength"] if dtype in INT_DTYPES else ["angstrom", "nm", "m", "mm"]))
     tilted = fn == "scattering_angles_with_gravity" and draw(st.booleans())
     lu = draw(st.sampled_from(["m", "m", "mm"]))
     f = LEN_UNITS[lu]
